@@ -164,10 +164,20 @@ def leafFromRawChain (env : LeafEnv) (chain : List ChainCert) (pre : Bool) : Lea
 /-- `copy(logID.KeyID[:], resp.ID)`: the first 32 octets, zero-filled -/
 def copyID (id : Bytes) : Bytes := (id ++ List.replicate 32 0).take 32
 
-/-- the checks `checkLogID` applies, where the code has them (regenerated flags) -/
-def idAccepted (keyID : Option Bytes) (id : Bytes) : Bool :=
-  (!Gen.addChainChecksIDLength || id.length = 32) &&
-  (!Gen.addChainChecksIDAgainstKey || match keyID with | none => true | some k => id = k)
+/-- is the response's `id` accepted?  `hasKey`: a verifier is configured; `keyID`: what `logIDForKey` gives for its key
+(SHA-256 of the SPKI; `none`: the key cannot be marshalled).  By the regenerated `Gen.addChainIDPolicy`:
+0 copied unchecked; 1 `checkLogID` (regenerated flags); 2 with a key, a *present* id must be the key hash. -/
+def idAccepted (hasKey : Bool) (keyID : Option Bytes) (id : Bytes) : Bool :=
+  if Gen.addChainIDPolicy = 2 then
+    (if hasKey then (match keyID with | none => false | some k => id.isEmpty || id = k) else true)
+  else
+    (!Gen.addChainChecksIDLength || id.length = 32) &&
+    (!Gen.addChainChecksIDAgainstKey || match keyID with | none => true | some k => id = k)
+
+/-- the log ID of the SCT handed back: under policy 2 and with a key, the key's own hash; otherwise the response's id,
+cut or zero-filled to 32 octets -/
+def sctLogID (hasKey : Bool) (keyID : Option Bytes) (id : Bytes) : Bytes :=
+  if Gen.addChainIDPolicy = 2 && hasKey then keyID.getD [] else copyID id
 
 /-- the part of addChainWithRetry after a 200 response that decoded as JSON; `keyID` = SHA-256 of the configured key's SPKI -/
 def addChainFinal (P : Prims) (verifier : Option Key) (keyID : Option Bytes) (leaf : LeafBuild) (status : Nat) (raw : Bytes) (b : SctBody) : Res SCT :=
@@ -177,9 +187,9 @@ def addChainFinal (P : Prims) (verifier : Option Key) (keyID : Option Bytes) (le
     match b.extensions with
     | none => .rspErr status raw
     | some exts =>
-      if !idAccepted keyID b.id then .rspErr status raw
+      if !idAccepted verifier.isSome keyID b.id then .rspErr status raw
       else
-        let sct : SCT := ⟨b.version, copyID b.id, b.timestamp, exts, ds⟩
+        let sct : SCT := ⟨b.version, sctLogID verifier.isSome keyID b.id, b.timestamp, exts, ds⟩
         match (if Gen.clientVerifiesBeforeReturn then verifier else none) with
         | none => .ok sct
         | some key =>
